@@ -923,8 +923,9 @@ def translation_tie(ctx, out, pid="C18"):
 
 
 def run(ctx, out, replay=None):
-    mult = 3 if translation_tie(ctx, out) == "skipped" else 1
-    n = (3000 if ctx.quick() else 60000) * mult
+    # translator skipped: the correspondence budget is tripled (thorough tier: x1.5, to stay within its 15 minutes)
+    mult = (3 if ctx.quick() else 1.5) if translation_tie(ctx, out) == "skipped" else 1
+    n = int((3000 if ctx.quick() else 60000) * mult)
     out.rule = ("random Rectangle method calls on lattice/dyadic rectangles; pairs drawn by relative configuration "
                 "(identical, edge, corner, nested, crossing, sliver, far); distinct by canonical hash of the case; "
                 "non-trivial = every case (each exercises one modelled method with an outcome that depends on the geometry).  "
@@ -944,9 +945,9 @@ def run(ctx, out, replay=None):
     while len(cases) < n:
         cases.append(gen_case(ctx.rng))
     xrng = __import__("random").Random(f"C18-extra-{ctx.seed}")
-    for _ in range((300 if ctx.quick() else 5000) * mult):
+    for _ in range(int((300 if ctx.quick() else 3000) * mult)):
         cases.append(gen_extra(xrng))
-    nh = (1200 if ctx.quick() else 20000) * mult
+    nh = int((1200 if ctx.quick() else 12000) * mult)
     hrng = __import__("random").Random(f"C18-hist-{ctx.seed}")
     for _ in range(nh):
         cases.append(gen_hist(hrng))
